@@ -13,7 +13,8 @@ RULE = ("synthetic sources (all layout classes, 0-5 stored arrays incl. duplicat
         "lengths on both sides of multiples of 512) x index and coordinate boxes (aligned/unaligned, clipped, full, outside, "
         "empty, inverted, none); the cropped file must be conformant (spec decoder) and every API view of it (volume under "
         "the symbolic decoder, axes, trace count, structured, every trace header, every tracefield array) must equal the "
-        "source's restricted to the box widened to block boundaries; refusals must be IndexError and leave no file")
+        "source's restricted to the box widened to block boundaries; refusals must be IndexError and leave no file"
+        "; K: Model/Crop (refusal, written box, copied source units in output order) vs the real cropper on symbolic sources; one cropper instance writes sequences of crops")
 
 
 def widen(lo, hi, b, n):
